@@ -404,7 +404,7 @@ pub fn text_faults(spec: &VoiceSpec, rng: &mut Rng, thin: usize) -> Vec<Fault> {
             &[
                 "unknown-question-in-node", "qs-renamed", "qs-deleted", "child-to-missing-node", "duplicate-node-id", "node-id-far-away", "child-to-root", "leaf-without-number",
                 "leaf-zero", "leaf-huge", "leaf-overflow", "no-closing-brace", "no-opening-brace", "state-text", "state-negative", "state-overflow",
-                "pattern-tag", "requote", "unbalanced-quote", "bad-pattern-char", "empty-pattern-list", "tokens-swapped", "non-utf8", "single-node-to-node",
+                "pattern-tag", "requote", "unbalanced-quote", "bad-pattern-char", "pattern-byte-to-structure", "empty-pattern-list", "tokens-swapped", "non-utf8", "single-node-to-node",
                 "empty-section", "trees-only-whitespace", "qs-no-braces", "node-id-text", "extra-token", "missing-token", "nul-byte", "crlf",
                 "tree-body-emptied", "tree-body-blanked", "tree-body-first-line-only", "tree-duplicated", "tree-deleted", "questions-only", "all-quotes-removed",
             ]
@@ -567,6 +567,26 @@ fn mutate_text(t: &str, m: &str, rng: &mut Rng) -> (Vec<u8>, bool) {
         }
         "unbalanced-quote" => replace_nth_token(t, is_leaf, pick(rng, nleaf), "\"x_s2_1"),
         "bad-pattern-char" => t.find("{ \"").map(|p| format!("{}{{ \"~{}", &t[..p], &t[p + 3..])),
+        "pattern-byte-to-structure" => {
+            // one byte of a question pattern (the first after its opening quote, or any other)
+            // becomes a character that has a meaning in the list syntax
+            let b = t.as_bytes();
+            let qs: Vec<usize> = (0..b.len().saturating_sub(2))
+                .filter(|&i| b[i] == b'"' && i > 0 && (b[i - 1] == b' ' || b[i - 1] == b',') && b[i + 1].is_ascii_graphic() && b[i + 1] != b'"')
+                .collect();
+            if qs.is_empty() || !t.contains("QS ") {
+                None
+            } else {
+                let at = *rng.pick(&qs) + 1 + if rng.chance(0.3) { 1 } else { 0 };
+                let mut v = b.to_vec();
+                if at < v.len() && v[at] != b'\n' {
+                    v[at] = *rng.pick(&[b',', b'"', b' ', b'}', b'{', b',']);
+                    String::from_utf8(v).ok()
+                } else {
+                    None
+                }
+            }
+        }
         "empty-pattern-list" => t.find("{ \"").and_then(|p| t[p..].find('}').map(|e| format!("{}{{ {}", &t[..p], &t[p + e..]))),
         "tokens-swapped" => {
             let lines: Vec<&str> = t.lines().collect();
